@@ -520,6 +520,11 @@ pub fn tokenize(text: &str) -> Result<Vec<ParserToken>, ParserError> {
         }
     }
 
+    // A comment start at the very end of the text (an empty comment without a line break after it)
+    if let Some(Token::Operator(Operator::Dual('-', '-'))) = state.tokens.last().map(|t| &t.token) {
+        state.tokens.remove(state.tokens.len() - 1);
+    }
+
     state.add(Token::End);
     Ok(state.tokens)
 }
